@@ -105,6 +105,58 @@ def rule_frame_eval(P):
     return r
 
 
+ADDS = ("evbuffer_add", "evbuffer_add_printf", "evbuffer_add_buffer", "evbuffer_add_reference", "evbuffer_add_vprintf")
+
+
+def rule_frame_atomic(P):
+    """a frame is queued with more than one evbuffer_add (header, then payload): each add is atomic, the pair is not - with BEV_OPT_THREADSAFE a second sender could put its frame
+    between the two.  Whoever queues a frame in several parts holds the bufferevent's lock across them."""
+    r = Rule("C32-frame-atomic", "K1/K3", "a frame queued in several parts is queued under the bufferevent lock: the multi-part emitter locks itself, or every call of it lies between bufferevent_lock and "
+             "bufferevent_unlock of the same bufferevent", floor=2)
+
+    def locked_at(f, el):
+        locks = [x for x in f.calls("bufferevent_lock") if f.pos_dominates(x.pos(), el.pos())]
+        for lk in locks:
+            # no unlock between the lock and the element, and no way out of the function without the unlock
+            between = f.path_avoiding(lk.pos(), lambda x: x is el, lambda x: False)
+            unl_before = f.path_avoiding(lk.pos(), lambda x: x.e[0] == "call" and callee_name(x.e) == "bufferevent_unlock", lambda x: x is el)
+            leaves = f.exit_reachable_avoiding(el.pos(), lambda x: x.e[0] == "call" and callee_name(x.e) == "bufferevent_unlock")
+            if between is not None and unl_before is None and not leaves:
+                return lk
+        return None
+    emitters = {}
+    for g in P.fns_in("ws.c"):
+        groups = {}
+        for el in g.calls():
+            if callee_name(el.e) in ADDS:
+                a0 = strip(el.e[2][0])
+                if is_e(a0, "var"):
+                    groups.setdefault(a0[1], []).append(el)
+        for v, els in groups.items():
+            multi = [(a, b) for a in els for b in els if a is not b and g.path_avoiding(a.pos(), lambda x, b=b: x is b, lambda x: False) is not None]
+            if multi:
+                emitters[g.name] = (g, v, els)
+    for name, (g, v, els) in sorted(emitters.items()):
+        self_locked = all(locked_at(g, el) is not None for el in els)
+        is_param = v in [p[0] for p in g.params]
+        r.inst(("emitter", name), {"fn": name, "buffer": v, "parts": [e.where() for e in els], "locks_itself": self_locked})
+        if self_locked:
+            continue
+        callers = [(f, el) for f in P.fns_in("ws.c") for el in f.calls(name)]
+        if not callers and not is_param:
+            r.bad("K1:%s:frame-parts-unlocked" % name, els[0].where(), name, "%d separate additions to `%s` without the bufferevent lock around them" % (len(els), v))
+        for f, el in callers:
+            lk = locked_at(f, el)
+            r.inst(("call", f.name, el.n), {"fn": f.name, "site": el.where(), "calls": name, "under_lock_taken_at": lk.where() if lk else None})
+            if lk is None:
+                r.bad("K1:%s:frame-parts-unlocked" % f.name, el.where(), f.name,
+                      "%s queues a frame with %d separate additions to the output buffer and is called here without bufferevent_lock/bufferevent_unlock around the call: with BEV_OPT_THREADSAFE "
+                      "another thread's frame can land between this frame's header and its payload" % (name, len(els)))
+    if not emitters:
+        r.brk("no multi-part frame emitter found in ws.c")
+    return r
+
+
 def run(ctx, config):
     P = ctx.prog(UNITS, config)
     rules = []
@@ -475,6 +527,7 @@ def run(ctx, config):
     rules.append(r4)
     rules.append(rule_frame_eval(P))
     rules.append(rule_sha1_blocks(P))
+    rules.append(rule_frame_atomic(P))
     return rules
 
 
